@@ -1,4 +1,5 @@
 import Toxi.Proofs.C16
+import Toxi.Proofs.Lemmas.ToxicComm
 /-!
 Linearizability of overlapping requests (C16), as a theorem for the requests whose handlers hold
 their lock across the effect: create, delete, reads, reset (one block) and toxic
@@ -15,8 +16,8 @@ steps that a `ProxyUpdate` can separate (`C16_replace_race_witness`).
 namespace Toxi.Conc
 open Toxi.Api
 
-/-- The request is neither a `ProxyUpdate` nor a populate. -/
-def Calm (r : Request) : Prop := (∀ n, kindOf r ≠ .update n) ∧ kindOf r ≠ .replace
+/-- The request is not a `ProxyUpdate`. -/
+def Calm (r : Request) : Prop := ∀ n, kindOf r ≠ .update n
 
 /-- The blocks of a schedule that are the effect of their request, in order, with the response. -/
 def commitLog (v : UpdVariant) (e : Env) (reqs : List Request) : CState → List Phase → List Nat → List (Nat × Response)
@@ -52,53 +53,20 @@ def Replays (v : UpdVariant) (e : Env) (reqs : List Request) : State → List (N
 def PhaseOK (r : Request) : Phase → Prop
   | .start => True
   | .found _ _ => ∃ n, kindOf r = .toxic n
+  | .replacing _ => kindOf r = .replace
   | .done _ => True
   | _ => False
 
-/-- One block of a calm request on a calm state: either it is the request's effect — exactly the
-sequential handler on the current registry — or it changes nothing of the registry. -/
-theorem advance_calm (v : UpdVariant) (e : Env) (c : CState) (r : Request) (ph : Phase)
-    (hz : c.zombies = []) (hl : c.locked = []) (hcalm : Calm r) (hph : PhaseOK r ph)
-    (hlive : ∀ obj ep n, ph = .found obj ep → kindOf r = .toxic n → (c.live n ep).isSome = true) :
-    (advance v e c r ph).1.zombies = [] ∧ (advance v e c r ph).1.locked = [] ∧ PhaseOK r (advance v e c r ph).2 ∧
-    (((advance v e c r ph).1.s = c.s ∧ (ph.isDone = true ∨ (advance v e c r ph).2.isDone = false)) ∨
-     (ph.isDone = false ∧ (advance v e c r ph).1.s = (step v e c.s r).1 ∧
-       (advance v e c r ph).2 = .done (step v e c.s r).2)) := by
-  have he : ({ e with busy := e.busy ++ c.zombies } : Env) = e := by rw [hz]; exact env_eta e
-  cases ph with
-  | done resp => simp [advance, hz, hl, PhaseOK, Phase.isDone]
-  | stopped a b d => simp [PhaseOK] at hph
-  | restart a b d => simp [PhaseOK] at hph
-  | ready a b d => simp [PhaseOK] at hph
-  | replacing x => simp [PhaseOK] at hph
-  | start =>
-    cases hk : kindOf r with
-    | single =>
-      rw [C16_single_block_atomic v e c r hk hl]
-      simp only [he]
-      refine ⟨hz, hl, trivial, Or.inr ⟨rfl, ?_, ?_⟩⟩ <;> first | rfl | trivial
-    | update n => exact absurd hk (hcalm.1 n)
-    | replace => exact absurd hk hcalm.2
-    | toxic n =>
-      simp only [advance, hk, hl, List.contains_nil, Bool.false_eq_true, if_false]
-      cases hf : c.s.find n with
-      | none =>
-        simp only []
-        refine ⟨hz, hl, trivial, Or.inr ⟨rfl, ?_, ?_⟩⟩
-        · rw [step_toxic_absent v e c.s r n hk hf]
-        · rw [step_toxic_absent v e c.s r n hk hf]
-      | some p =>
-        simp only []
-        refine ⟨hz, hl, ⟨n, hk⟩, Or.inl ⟨?_, Or.inr ?_⟩⟩ <;> first | rfl | trivial
-  | found obj ep =>
-    obtain ⟨n, hk⟩ := hph
-    have hsome := hlive obj ep n rfl hk
-    cases hlv : c.live n ep with
-    | none => rw [hlv] at hsome; cases hsome
-    | some cur =>
-      rw [C16_toxic_effect_atomic v e c r n obj cur ep hk hlv]
-      simp only [he]
-      refine ⟨hz, hl, trivial, Or.inr ⟨rfl, ?_, ?_⟩⟩ <;> first | rfl | trivial
+/-- No request is between the two steps of a replacement. -/
+def NoRepl (phs : List Phase) : Prop := ∀ (k : Nat) (y : PopEntry), phs[k]? ≠ some (Phase.replacing y)
+
+/-- `Abs … sA`: `sA` is the registry as the sequential handlers see it.  It is the registry of
+the block model, except while a populate is between the two steps of a replacement: then the
+block model's registry is `sA` with the proxy being replaced already stopped. -/
+def Abs (e : Env) (reqs : List Request) (c : CState) (phs : List Phase) (sA : State) : Prop :=
+  (sA = c.s ∧ c.locked = [] ∧ NoRepl phs) ∨
+  (∃ (k : Nat) (x : PopEntry) (r : Request), phs[k]? = some (Phase.replacing x) ∧ reqs[k]? = some r ∧ stopFirst e sA r = some (x, c.s) ∧
+     c.locked = [collLock] ∧ ∀ (k' : Nat) (y : PopEntry), phs[k']? = some (Phase.replacing y) → k' = k)
 
 theorem getElem?_set_self' {α : Type} (l : List α) (k : Nat) (a : α) (x : α) (h : l[k]? = some x) : (l.set k a)[k]? = some a := by
   have : k < l.length := by
@@ -107,32 +75,191 @@ theorem getElem?_set_self' {α : Type} (l : List α) (k : Nat) (a : α) (x : α)
     · rw [List.getElem?_eq_none h'] at h; cases h
   simp [this]
 
+theorem norepl_set {phs : List Phase} (k : Nat) (ph' : Phase) (h : NoRepl phs) (hp : ∀ y, ph' ≠ .replacing y) :
+    NoRepl (phs.set k ph') := by
+  unfold NoRepl at h ⊢
+  intro k' y hk'
+  by_cases hkk : k' = k
+  · subst hkk
+    rw [List.getElem?_set] at hk'
+    split at hk'
+    · split at hk'
+      · simp only [Option.some.injEq] at hk'; exact hp y hk'
+      · cases hk'
+    · exact absurd rfl ‹¬ _›
+  · rw [List.getElem?_set_ne (fun h' => hkk h'.symm)] at hk'
+    exact h k' y hk'
+
+/-- A block of another request, which is not and does not become a replacement step, leaves the
+"being replaced" bookkeeping alone. -/
+theorem abs_other {e : Env} {reqs : List Request} {c c' : CState} {phs : List Phase} {sA sA' : State}
+    (k : Nat) (ph ph' : Phase) (hpk : phs[k]? = some ph) (hph : ∀ y, ph ≠ .replacing y) (hph' : ∀ y, ph' ≠ .replacing y)
+    (hl : c'.locked = c.locked)
+    (hleft : sA = c.s → sA' = c'.s)
+    (hright : ∀ x r, stopFirst e sA r = some (x, c.s) → stopFirst e sA' r = some (x, c'.s))
+    (h : Abs e reqs c phs sA) : Abs e reqs c' (phs.set k ph') sA' := by
+  rcases h with ⟨hs, hlk, hn⟩ | ⟨k0, x, r0, hp0, hr0, hsf, hlk, huniq⟩
+  · exact Or.inl ⟨hleft hs, hl.trans hlk, norepl_set k ph' hn hph'⟩
+  · have hne : k0 ≠ k := by
+      intro hkk; subst hkk; rw [hp0] at hpk; cases hpk; exact hph x rfl
+    refine Or.inr ⟨k0, x, r0, ?_, hr0, hright x r0 hsf, hl.trans hlk, ?_⟩
+    · rw [List.getElem?_set_ne (fun h' => hne h'.symm)]; exact hp0
+    · intro k' y hk'
+      by_cases hkk : k' = k
+      · subst hkk
+        rw [List.getElem?_set] at hk'
+        split at hk'
+        · split at hk'
+          · simp only [Option.some.injEq] at hk'; exact absurd hk' (hph' y)
+          · cases hk'
+        · exact absurd rfl ‹¬ _›
+      · rw [List.getElem?_set_ne (fun h' => hkk h'.symm)] at hk'
+        exact huniq k' y hk'
+
+/-- **One block of a calm request.**  Either it is the request's effect — exactly the sequential
+handler on the registry the sequential handlers see (`sA`) — or that registry stays as it is. -/
+theorem advance_abs (v : UpdVariant) (e : Env) (reqs : List Request) (c : CState) (phs : List Phase) (k : Nat)
+    (r : Request) (ph : Phase) (sA : State)
+    (hz : c.zombies = []) (hr : reqs[k]? = some r) (hp : phs[k]? = some ph) (hcalm : Calm r) (hph : PhaseOK r ph)
+    (habs : Abs e reqs c phs sA)
+    (hlive : ∀ obj ep n, ph = .found obj ep → kindOf r = .toxic n → (c.live n ep).isSome = true) :
+    (advance v e c r ph).1.zombies = [] ∧ PhaseOK r (advance v e c r ph).2 ∧
+    ∃ sA', Abs e reqs (advance v e c r ph).1 (phs.set k (advance v e c r ph).2) sA' ∧
+      ((sA' = sA ∧ (ph.isDone = true ∨ (advance v e c r ph).2.isDone = false)) ∨
+       (ph.isDone = false ∧ sA' = (step v e sA r).1 ∧ (advance v e c r ph).2 = .done (step v e sA r).2)) := by
+  have he : ({ e with busy := e.busy ++ c.zombies } : Env) = e := by rw [hz]; exact env_eta e
+  have hklt : k < phs.length := by
+    rcases Nat.lt_or_ge k phs.length with h' | h'
+    · exact h'
+    · rw [List.getElem?_eq_none h'] at hp; cases hp
+  cases ph with
+  | ready a b d => simp [PhaseOK] at hph
+  | stopped a b d => simp [PhaseOK] at hph
+  | restart a b d => simp [PhaseOK] at hph
+  | done resp =>
+    rw [advance_done]
+    refine ⟨hz, trivial, sA, ?_, Or.inl ⟨rfl, Or.inl rfl⟩⟩
+    exact abs_other (c := c) k _ _ hp (fun y h' => by cases h') (fun y h' => by cases h') rfl (fun h' => h') (fun x r h' => h') habs
+  | found obj ep =>
+    obtain ⟨n, hk⟩ := hph
+    have hsome := hlive obj ep n rfl hk
+    cases hlv : c.live n ep with
+    | none => rw [hlv] at hsome; cases hsome
+    | some cur =>
+      rw [C16_toxic_effect_atomic v e c r n obj cur ep hk hlv]
+      simp only [he]
+      refine ⟨hz, trivial, (step v e sA r).1, ?_, Or.inr ⟨rfl, rfl, ?_⟩⟩
+      · refine abs_other (c := c) k _ _ hp (fun y h' => by cases h') (fun y h' => by cases h') rfl ?_ ?_ habs
+        · intro hs; rw [hs]
+        · intro x r0 hsf
+          exact (toxic_commutes v e sA r0 r x c.s n hk hsf).2
+      · rcases habs with ⟨hs, _, _⟩ | ⟨k0, x, r0, _, _, hsf, _, _⟩
+        · rw [hs]
+        · rw [(toxic_commutes v e sA r0 r x c.s n hk hsf).1]
+  | replacing x =>
+    have hk : kindOf r = .replace := hph
+    rcases habs with ⟨_, _, hn⟩ | ⟨k0, x0, r0, hp0, hr0, hsf, hlk, huniq⟩
+    · exact absurd hp (hn k x)
+    · have hkk : k = k0 := huniq k x hp
+      subst hkk
+      rw [hp] at hp0; cases hp0
+      rw [hr] at hr0; cases hr0
+      obtain ⟨h1, h2, h3, h4⟩ := replacing_block v e sA r x c hk hsf hz hlk
+      refine ⟨h3, by rw [h2]; trivial, (step v e sA r).1, ?_, Or.inr ⟨rfl, rfl, h2⟩⟩
+      refine Or.inl ⟨h1.symm, h4, ?_⟩
+      intro k' y hk'
+      by_cases hkk : k' = k
+      · subst hkk
+        rw [h2, List.getElem?_set] at hk'
+        split at hk'
+        · first | cases hk' | (split at hk' <;> cases hk')
+        · exact absurd rfl ‹¬ _›
+      · rw [List.getElem?_set_ne (fun h' => hkk h'.symm)] at hk'
+        exact hkk (huniq k' y hk')
+  | start =>
+    rcases habs with ⟨hs, hlk, hn⟩ | ⟨k0, x0, r0, hp0, hr0, hsf, hlk, huniq⟩
+    · -- nobody is replacing
+      cases hk : kindOf r with
+      | update n => exact absurd hk (hcalm n)
+      | single =>
+        rw [C16_single_block_atomic v e c r hk hlk]
+        simp only [he]
+        refine ⟨hz, trivial, (step v e sA r).1, ?_, Or.inr ⟨rfl, rfl, by rw [hs]⟩⟩
+        exact Or.inl ⟨by rw [hs], hlk, norepl_set k _ hn (fun y h' => by cases h')⟩
+      | toxic n =>
+        simp only [advance, hk, hlk, List.contains_nil, Bool.false_eq_true, if_false]
+        cases hf : c.s.find n with
+        | none =>
+          simp only []
+          have hst := step_toxic_absent v e sA r n hk (by rw [hs]; exact hf)
+          refine ⟨hz, trivial, sA, ?_, Or.inr ⟨rfl, by rw [hst], by rw [hst]⟩⟩
+          exact Or.inl ⟨hs, hlk, norepl_set k _ hn (fun y h' => by cases h')⟩
+        | some p =>
+          simp only []
+          refine ⟨hz, ⟨n, hk⟩, sA, ?_, Or.inl ⟨rfl, Or.inr rfl⟩⟩
+          exact Or.inl ⟨hs, hlk, norepl_set k _ hn (fun y h' => by cases h')⟩
+      | replace =>
+        cases hsf : stopFirst e c.s r with
+        | none =>
+          have h0 : advance v e c r .start =
+              ({ c with s := (step v e c.s r).1, epochs := reEpoch c.epochs c.s (step v e c.s r).1,
+                        dead := c.dead ++ retired c.epochs c.s (step v e c.s r).1 }, .done (step v e c.s r).2) := by
+            simp only [advance, hk, hlk, hz, env_eta, hsf]
+            simp
+          rw [h0]
+          refine ⟨hz, trivial, (step v e sA r).1, ?_, Or.inr ⟨rfl, rfl, by rw [hs]⟩⟩
+          exact Or.inl ⟨by rw [hs], hlk, norepl_set k _ hn (fun y h' => by cases h')⟩
+        | some xs =>
+          obtain ⟨x, s1⟩ := xs
+          have h0 : advance v e c r .start = ({ c with s := s1, locked := [collLock] }, .replacing x) := by
+            simp only [advance, hk, hlk, hz, env_eta, hsf]
+            simp
+          rw [h0]
+          refine ⟨hz, hk, sA, ?_, Or.inl ⟨rfl, Or.inr rfl⟩⟩
+          refine Or.inr ⟨k, x, r, ?_, hr, by rw [hs]; exact hsf, rfl, ?_⟩
+          · simp [hklt]
+          · intro k' y hk'
+            by_cases hkk : k' = k
+            · exact hkk
+            · rw [List.getElem?_set_ne (fun h' => hkk h'.symm)] at hk'
+              exact absurd hk' (hn k' y)
+    · -- a replacement is in progress: the collection lock is held, every handler waits at its start
+      have h0 : advance v e c r .start = (c, .start) := by
+        simp [advance, hlk]
+      rw [h0]
+      refine ⟨hz, trivial, sA, ?_, Or.inl ⟨rfl, Or.inr rfl⟩⟩
+      exact abs_other (c := c) k .start .start hp (fun y h' => by cases h') (fun y h' => by cases h') rfl (fun h' => h')
+        (fun x r h' => h') (Or.inr ⟨k0, x0, r0, hp0, hr0, hsf, hlk, huniq⟩)
+
 /-- **C16 (linearizability, for the handlers that hold their lock across the effect).**  For every
-set of overlapping create / delete / read / reset / toxic add, update, remove
-requests and every schedule of their blocks in which no toxic operation meets a proxy deleted or
-replaced under it: the registry at the end is the registry the sequential handler produces when
-the requests are executed one at a time in the order of their effect blocks, and every response
-given is the response the sequential handler gives at that point. -/
+set of overlapping create / delete / populate / read / reset / toxic add, update, remove requests
+and every schedule of their blocks in which no toxic operation meets a proxy deleted or replaced
+under it: the registry the sequential handlers see at the end (`Abs`: the block model's registry,
+unless a replacement is still between its two steps) is the registry the sequential handler
+produces when the requests are executed one at a time in the order of their effect blocks, and
+every response given is the response the sequential handler gives at that point. -/
 theorem C16_commit_order (v : UpdVariant) (e : Env) (reqs : List Request) (hcalm : ∀ r ∈ reqs, Calm r) :
-    ∀ (sched : List Nat) (c : CState) (phs : List Phase), c.zombies = [] → c.locked = [] →
+    ∀ (sched : List Nat) (c : CState) (phs : List Phase) (sA : State), c.zombies = [] →
       (∀ (k : Nat) (r : Request) (ph : Phase), reqs[k]? = some r → phs[k]? = some ph → PhaseOK r ph) →
-      RunOK v e reqs c phs sched →
-      Replays v e reqs c.s (commitLog v e reqs c phs sched) (runSched v e reqs c phs sched).1.s := by
+      Abs e reqs c phs sA → RunOK v e reqs c phs sched →
+      ∃ sF, Replays v e reqs sA (commitLog v e reqs c phs sched) sF ∧
+        Abs e reqs (runSched v e reqs c phs sched).1 (runSched v e reqs c phs sched).2 sF := by
   intro sched
   induction sched with
-  | nil => intro c phs _ _ _ _; rfl
+  | nil => intro c phs sA _ _ habs _; exact ⟨sA, rfl, habs⟩
   | cons k ks ih =>
-    intro c phs hz hl hph hok
+    intro c phs sA hz hph habs hok
     simp only [commitLog, runSched, RunOK] at hok ⊢
     cases hr : reqs[k]? with
-    | none => simp only [hr] at hok ⊢; exact ih c phs hz hl hph hok
+    | none => simp only [hr] at hok ⊢; exact ih c phs sA hz hph habs hok
     | some r =>
       cases hp : phs[k]? with
-      | none => simp only [hr, hp] at hok ⊢; exact ih c phs hz hl hph hok
+      | none => simp only [hr, hp] at hok ⊢; exact ih c phs sA hz hph habs hok
       | some ph =>
         simp only [hr, hp] at hok ⊢
         obtain ⟨hlive, hok'⟩ := hok
-        obtain ⟨hz', hl', hph', heff⟩ := advance_calm v e c r ph hz hl (hcalm r (List.mem_of_getElem? hr)) (hph k r ph hr hp) hlive
+        obtain ⟨hz', hph', sA', habs', heff⟩ :=
+          advance_abs v e reqs c phs k r ph sA hz hr hp (hcalm r (List.mem_of_getElem? hr)) (hph k r ph hr hp) habs hlive
         have hphs' : ∀ (k' : Nat) (r' : Request) (ph' : Phase), reqs[k']? = some r' →
             (phs.set k (advance v e c r ph).2)[k']? = some ph' → PhaseOK r' ph' := by
           intro k' r' ph' hr' hp'
@@ -144,7 +271,8 @@ theorem C16_commit_order (v : UpdVariant) (e : Env) (reqs : List Request) (hcalm
             exact hph'
           · rw [List.getElem?_set_ne (fun h => hk h.symm)] at hp'
             exact hph k' r' ph' hr' hp'
-        have hrec := ih (advance v e c r ph).1 (phs.set k (advance v e c r ph).2) hz' hl' hphs' hok'
+        obtain ⟨sF, hrep, hfin⟩ := ih (advance v e c r ph).1 (phs.set k (advance v e c r ph).2) sA' hz' hphs' habs' hok'
+        refine ⟨sF, ?_, hfin⟩
         rcases heff with ⟨hs, hd⟩ | ⟨hnd, hs, hdone⟩
         · -- a block without effect on the registry: nothing is logged
           have hnil : (if ph.isDone = true then ([] : List (Nat × Response)) else
@@ -160,31 +288,45 @@ theorem C16_commit_order (v : UpdVariant) (e : Env) (reqs : List Request) (hcalm
                 | done resp => rw [hx] at hd; simp [Phase.isDone] at hd
                 | _ => rfl
           rw [hnil, List.nil_append, ← hs]
-          exact hrec
+          exact hrep
         · -- the request's effect: one step of the sequential handler
           have hlog : (if ph.isDone = true then ([] : List (Nat × Response)) else
               match (advance v e c r ph).2 with
               | .done resp => [(k, resp)]
-              | _ => []) = [(k, (step v e c.s r).2)] := by
+              | _ => []) = [(k, (step v e sA r).2)] := by
             rw [if_neg (by simp [hnd]), hdone]
           rw [hlog, List.singleton_append]
           refine ⟨r, hr, rfl, ?_⟩
           rw [← hs]
-          exact hrec
+          exact hrep
 
-
-/-- … in particular from the moment the requests are issued. -/
+/-- … in particular from the moment the requests are issued, and when every request has
+returned the registry of the block model itself is the sequential outcome. -/
 theorem C16_linearizable (v : UpdVariant) (e : Env) (reqs : List Request) (hcalm : ∀ r ∈ reqs, Calm r)
     (s0 : State) (sched : List Nat)
-    (hok : RunOK v e reqs { s := s0 } (reqs.map fun _ => Phase.start) sched) :
+    (hok : RunOK v e reqs { s := s0 } (reqs.map fun _ => Phase.start) sched)
+    (hall : ∀ ph ∈ (runSched v e reqs { s := s0 } (reqs.map fun _ => Phase.start) sched).2, ph.isDone = true) :
     Replays v e reqs s0 (commitLog v e reqs { s := s0 } (reqs.map fun _ => Phase.start) sched)
       (runSched v e reqs { s := s0 } (reqs.map fun _ => Phase.start) sched).1.s := by
-  refine C16_commit_order v e reqs hcalm sched { s := s0 } _ rfl rfl ?_ hok
-  intro k r ph _ hp
-  simp only [List.getElem?_map] at hp
-  cases hrk : reqs[k]? with
-  | none => rw [hrk] at hp; cases hp
-  | some r' => rw [hrk] at hp; cases hp; trivial
+  have hph0 : ∀ (k : Nat) (r : Request) (ph : Phase), reqs[k]? = some r →
+      (reqs.map fun _ => Phase.start)[k]? = some ph → PhaseOK r ph := by
+    intro k r ph _ hp
+    simp only [List.getElem?_map] at hp
+    cases hrk : reqs[k]? with
+    | none => rw [hrk] at hp; cases hp
+    | some r' => rw [hrk] at hp; cases hp; trivial
+  have habs0 : Abs e reqs { s := s0 } (reqs.map fun _ => Phase.start) s0 := by
+    refine Or.inl ⟨rfl, rfl, ?_⟩
+    intro k y hk
+    simp only [List.getElem?_map] at hk
+    cases hrk : reqs[k]? with
+    | none => rw [hrk] at hk; cases hk
+    | some r' => rw [hrk] at hk; cases hk
+  obtain ⟨sF, hrep, hfin⟩ := C16_commit_order v e reqs hcalm sched { s := s0 } _ s0 rfl hph0 habs0 hok
+  rcases hfin with ⟨hs, _, _⟩ | ⟨k, x, r, hp, _⟩
+  · rw [← hs]; exact hrep
+  · have := hall _ (List.mem_of_getElem? hp)
+    simp [Phase.isDone] at this
 
 /-- Non-vacuity: two deletes of `p1` and a toxic add on it, blocks interleaved (the toxic
 operation looks the proxy up before the deletes and would then meet a deleted proxy — so that
@@ -195,11 +337,28 @@ def toxReq : Request := ⟨.post, ["proxies", "p1", "toxics"], false,
   .val (.obj [("name", .str "t1"), ("type", .str "noop")])⟩
 
 example : Calm deleteReq ∧ Calm toxReq := by
-  refine ⟨⟨?_, ?_⟩, ⟨?_, ?_⟩⟩ <;> intros <;> simp_all [kindOf, deleteReq, toxReq, routeMethods]
+  constructor <;> intro n h <;> simp [kindOf, deleteReq, toxReq, routeMethods] at h
 
 example : (runSched .fixed envW [toxReq, deleteReq, deleteReq] { s := [p1off] } [.start, .start, .start] [0, 0, 1, 2]).2.map Phase.status
     = [200, 204, 404] ∧
     (commitLog .fixed envW [toxReq, deleteReq, deleteReq] { s := [p1off] } [.start, .start, .start] [0, 0, 1, 2]).map (·.1) = [0, 1, 2] := by
+  decide
+
+/-- Non-vacuity for the replacement: a populate replacing the running `p1` and a toxic add on
+`p1`; the toxic operation looks `p1` up, the populate stops `p1`, the toxic operation acts on the
+stopped proxy, the populate starts and registers the replacement.  The run is the sequential
+execution toxic-add, then populate (whose replacement discards the toxic), answers 200 and 201. -/
+def replaceW : Request := ⟨.post, ["populate"], false,
+  .val (.arr [.obj [("name", .str "p1"), ("listen", .str "a:1"), ("upstream", .str "u:2")]])⟩
+
+example : Calm replaceW ∧ Calm toxReq := by
+  constructor <;> intro n h <;> simp [kindOf, replaceW, toxReq, routeMethods] at h
+
+example : (runSched .fixed envW [replaceW, toxReq] { s := [p1on] } [.start, .start] [1, 0, 1, 0]).2.map Phase.status
+    = [201, 200] ∧
+    (commitLog .fixed envW [replaceW, toxReq] { s := [p1on] } [.start, .start] [1, 0, 1, 0]).map (·.1) = [1, 0] ∧
+    (runSched .fixed envW [replaceW, toxReq] { s := [p1on] } [.start, .start] [1, 0, 1, 0]).1.s
+      = [⟨"p1", "a:1", "u:2", true, []⟩] := by
   decide
 
 end Toxi.Conc
